@@ -269,6 +269,11 @@ def rule_b(ctx, side):
         call = list(mins.values())[0]
         ctx.ob(R, f.qname, "minimize(objective, x0 = current balance)", norm(call.args[0]) == o.name and norm(expand(f.node, call.args[1])) == sp["x0"], norm(call.args[1]), call,
                evidence=norm(call.args[0]) == o.name and "self" not in {x.id for x in ast.walk(expand(f.node, call.args[1])) if isinstance(x, ast.Name)})  # a start value that does not read the object at all
+        # the least-squares fit ranges over all balances of the mode: no bounds / constraints on the parameter vector (a ground-truth balance with a
+        # negative entry, or outside a box, would not be recovered -- scipy reports success all the same)
+        restr = [kw_ for kw_ in call.keywords if kw_.arg in ("bounds", "constraints") and not (isinstance(kw_.value, ast.Constant) and kw_.value.value is None)]
+        ctx.ob(R, f.qname, "the fit is unconstrained", not restr,
+               f"`{restr[0].arg}={norm(restr[0].value)[:50]}` restricts the search: an exact balance outside the admissible set is silently replaced by the best admissible one" if restr else "", call, evidence=True)
         # the objective, with its once-bound locals replaced by their definitions: np.sum((APPLIED - dst) ** 2)
         orets = [r.value for r in ast.walk(o) if isinstance(r, ast.Return) and r.value is not None]
         ctx.need(len(orets) == 1, f"{f.qname}: objective has no single return")
